@@ -10,7 +10,7 @@ PLAN = dict(
     assumptions=TRUSTED + ["SHA-256 from the Go standard library is shared by the code under test and the reference",
                            "a Read may return (0, nil) for a non-empty buffer at most 4 times in a row; more is reported as no-progress"],
     runs=[
-        dict(name="exh", run="^(TestExhaustive|TestCorpus)$", timeout=(300, 3600)),
+        dict(name="exh", run="^(TestExhaustive|TestDoors|TestCorpus)$", timeout=(300, 3600)),
         dict(name="rapid", run="^TestPropRoundTrip$", checks=(10000, 500000), shards=(2, 16), timeout=(300, 3600)),
         dict(name="conc", run="^TestConcRoundTrip$", checks=(150, 5000), shards=(1, 4), timeout=(300, 3600), race=True),
     ],
